@@ -241,6 +241,16 @@ for cc in json.loads(sys.argv[1]):
                 out[f"{cc}/{seed}/{reg}"] = str(IBAN.random(cc, random=random.Random(seed), use_registry=reg))
             except Exception as ex:
                 out[f"{cc}/{seed}/{reg}"] = "raise " + type(ex).__name__
+    # "identical on every call": the same seeded call again, after the component accessors of its result were read
+    for reg in (True, False):
+        first = out[f"{cc}/1/{reg}"]
+        try:
+            if not first.startswith("raise "):
+                y = IBAN(first, allow_invalid=True)
+                _ = (y.bank_code, y.branch_code, y.account_code, y.national_checksum_digits, y.bic, y.bank, y.is_valid)
+            out[f"{cc}/1/{reg}/again"] = str(IBAN.random(cc, random=random.Random(1), use_registry=reg))
+        except Exception as ex:
+            out[f"{cc}/1/{reg}/again"] = "raise " + type(ex).__name__
 print(json.dumps(out))
 '''
 
@@ -259,6 +269,11 @@ def hashseed_runs(ccs):
         outs[hs] = json.loads(r.stdout.strip().splitlines()[-1])
     diffs = [dict(call=k, outputs={hs: outs[hs][k] for hs in outs}) for k in outs["0"]
              if len({outs[hs][k] for hs in outs}) > 1]
+    for hs in outs:
+        for k, v in outs[hs].items():
+            if k.endswith("/again") and v != outs[hs][k[:-len("/again")]]:
+                diffs.append(dict(call=k, outputs={"first call": outs[hs][k[:-len("/again")]], "same call again (same process, "
+                                                   "after reading the components of the first result)": v}))
     return (diffs, len(outs["0"]) * len(outs)), ""
 
 
@@ -305,7 +320,8 @@ def main(seed, tier):
         detail="" if not deny else f"replayed natively: the symbolic run executed {deny}")]))
     from schwifty import registry as _reg
     with_banks = sorted(_reg.get("country"))
-    res, err = hashseed_runs(sorted(set(sorted(tab)[:: (2 if tier == "thorough" else 6)] + with_banks + [""])))
+    bare = [cc for cc in tab if "positions" not in tab[cc]]        # sparse table entries (opaque-block generation)
+    res, err = hashseed_runs(sorted(set(sorted(tab)[:: (2 if tier == "thorough" else 6)] + with_banks + bare + [""])))
     extra = []
     if res is None:
         results.append(dict(task="hash seed runs", obligations=[], functions={}, files={}, paths=0,
